@@ -8,6 +8,7 @@ from fv.facts import CheckerError
 from fv.oracle import Q
 
 FELT = "falcon_rust::falcon_field::Felt"
+FELT_TY = "falcon_field::Felt"
 POLY_FELT = "falcon_rust::polynomial::Polynomial<falcon_rust::falcon_field::Felt>"
 CF = "falcon_rust::cyclotomic_fourier::CyclotomicFourier"
 
